@@ -1,20 +1,20 @@
-\* C05 random walks (tlc -simulate -depth SimDepth+1): longer chains, larger chunks
+\* C05 long random walks: 16 blocks, chunk sizes up to 10, deeper buffer, restarts
 CONSTANTS
-  N = 12
-  Chunks = {1,2,3,4,7}
+  N = 16
+  Chunks = {1,3,5,10}
   TipTags = {"latest","finalized"}
-  BufCap = 2
+  BufCap = 3
   MaxForks = 0
-  MaxFails = 2
-  MaxPFails = 1
-  MaxRestarts = 1
+  MaxFails = 3
+  MaxPFails = 2
+  MaxRestarts = 2
   Detector = FALSE
   RetryLimit = 5
   AtomicRemove = TRUE
   Contents = {0,1}
   FinLag = 0
   NoIdle = TRUE
-  SimDepth = 199
+  SimDepth = 249
 INIT Init
 NEXT Next
 ACTION_CONSTRAINT Dump
